@@ -158,6 +158,7 @@ def derive(ctx, label, fuel, simulate=None, seed=None, exclude=()):
         if k not in seen:
             seen.add(k)
             uniq.append((e["toks"], e["feat"]))
+    uniq.sort(key=lambda x: " ".join(x[0]))
     return uniq
 
 
